@@ -795,3 +795,47 @@ Section PenaltyQ.
       + apply Qeq_bool_neq in Hb. split; intro H; [exfalso; apply H; reflexivity|contradiction].
   Qed.
 End PenaltyQ.
+
+(* ------------------------------------------------------------------ the concrete instance over exact rationals:
+   Python list equality on vectors of rationals is symmetric and transitive, so the and_ theorem applies to
+   [and_num NumQ] with the modelled randomisation [(x_i + randint(-1,1)) * random()] for every draw stream *)
+Section ConcreteQ.
+  Lemma list_eqb_Q_Forall2 : forall a b : list Q, list_eqb NumQ a b = true <-> Forall2 Qeq a b.
+  Proof.
+    unfold list_eqb. cbn [Num.eqb NumQ].
+    induction a as [|x a IH]; intros [|y b]; simpl; split; intro H; try discriminate; try constructor;
+      try (inversion H; fail).
+    - apply andb_true_iff in H. destruct H as [Hl H]. apply andb_true_iff in H. destruct H as [Hxy H].
+      apply Qeq_bool_iff. exact Hxy.
+    - apply andb_true_iff in H. destruct H as [Hl H]. apply andb_true_iff in H. destruct H as [Hxy H].
+      apply IH. apply andb_true_iff. split; assumption.
+    - inversion H; subst. apply IH in H5. apply andb_true_iff in H5. destruct H5 as [Hl Hf].
+      apply andb_true_iff. split; [exact Hl|]. apply andb_true_iff. split; [apply Qeq_bool_iff; assumption|exact Hf].
+  Qed.
+
+  Lemma list_eqb_Q_sym : forall a b : list Q, list_eqb NumQ a b = true -> list_eqb NumQ b a = true.
+  Proof.
+    intros a b H. apply list_eqb_Q_Forall2 in H. apply list_eqb_Q_Forall2.
+    induction H; constructor; [symmetry; assumption|assumption].
+  Qed.
+
+  Lemma list_eqb_Q_trans : forall a b c : list Q,
+    list_eqb NumQ a b = true -> list_eqb NumQ b c = true -> list_eqb NumQ a c = true.
+  Proof.
+    intros a b c H1 H2. apply list_eqb_Q_Forall2 in H1, H2. apply list_eqb_Q_Forall2.
+    revert c H2. induction H1; intros c H2; inversion H2; subst; constructor.
+    - etransitivity; eassumption.
+    - apply IHForall2. assumption.
+  Qed.
+
+  Theorem and_num_Q_success_fixed_by_all :
+    forall (zu : nat -> Z * Q) (cs : list (member (list Q))) maxiter x0 s r s',
+    (forall c, In c cs -> proper (list Q) (list_eqb NumQ) c /\ idem (list Q) (list_eqb NumQ) c) ->
+    and_num NumQ zu cs maxiter x0 s = (Success r, s') ->
+    forall c, In c cs -> fixes (list Q) (list_eqb NumQ) c r.
+  Proof.
+    intros zu cs maxiter x0 s r s'. unfold and_num.
+    apply (and_success_fixed_by_all (list Q) (list_eqb NumQ) nat (randomise_num NumQ zu)
+             list_eqb_Q_sym list_eqb_Q_trans).
+  Qed.
+End ConcreteQ.
